@@ -244,7 +244,13 @@ func runC02(c *ctx, r *Report) error {
 		}
 	}
 	r.sample(map[string]interface{}{"files": names, "repetitions_per_set": reps, "gomaxprocs": []int{1, 2, 4, 16}})
-	return nil
+	// AL.Rules.lint is a function of the YAML node tree (AL.Props.C02Rules): where the real linter's diagnostics of the modelled
+	// kinds equal it on every source, they are a function of the input as well
+	per := 3
+	if !c.quick {
+		per = 150
+	}
+	return lwStandard(c, r, nil, per, false)
 }
 
 func sortStrings(s []string) {
